@@ -17,6 +17,9 @@ type Index struct {
 	IndexType model.IndexType
 	CnsTyp    ast.ConstraintType
 	Columns   []string
+
+	// previous is the definition on the old side, set by Table.Diff when the index is redefined under its name
+	previous *Index
 }
 
 func (i Index) hashValue() string {
@@ -98,6 +101,11 @@ func (i Index) migrationDown(tbName string) []string {
 		i.Action = MigrateAddAction
 
 	case MigrateModifyAction:
+		if i.previous != nil {
+			prev := *i.previous
+			prev.Action = MigrateModifyAction
+			return prev.migrationUp(tbName)
+		}
 
 	case MigrateRenameAction:
 		i.Name, i.OldName = i.OldName, i.Name
